@@ -383,10 +383,9 @@ Theorem forward_pipeline_difference (P Pd I : Type) (solver : nat -> qm -> qv ->
   length (fic P form p1 (nth 0 times 0)) = length (fic P form p2 (nth 0 times 0)) ->
   td_forward P I solver form Q None interp2 G MFwd times [T] prev1 p1 = Ok (A1 o1) ->
   td_forward P I solver form Q None interp2 G MFwd times [T] prev2 p2 = Ok (A1 o2) ->
-  (2 <= length o1)%nat -> length o1 = length o2 ->
   td_forward Pd I solver formd Q None interp2 G MFwd times [T] prevd pd = Ok (A1 (qvsub o1 o2)).
 Proof.
-  intros Hg HT Hf HL H1 H2 Hlen Hlen2.
+  intros Hg HT Hf HL H1 H2.
   unfold td_forward, td_assemble in *.
   destruct (td_solve P I solver form Q MFwd (Some p1) times) as [[l1 i1]|e1] eqn:S1; [|discriminate].
   destruct (td_solve P I solver form Q MFwd (Some p2) times) as [[l2 i2]|e2] eqn:S2; [|discriminate].
@@ -424,12 +423,11 @@ Example ex_pipeline_hypotheses :
                fic qv exd_form (qvsub p1 p2) t = qvsub (fic qv ex_form p1 t) (fic qv ex_form p2 t)) /\
   g_eq G = true /\ last_opt times = Some (qc (3 # 4)) /\
   exists o1 o2, td_forward qv Z ex_solver ex_form quirks_fixed None const_interp2 G MFwd times [qc (3 # 4)] None p1 = Ok (A1 o1) /\
-                td_forward qv Z ex_solver ex_form quirks_fixed None const_interp2 G MFwd times [qc (3 # 4)] None p2 = Ok (A1 o2) /\
-                (2 <= length o1)%nat /\ length o1 = length o2.
+                td_forward qv Z ex_solver ex_form quirks_fixed None const_interp2 G MFwd times [qc (3 # 4)] None p2 = Ok (A1 o2).
 Proof.
   cbn zeta. split.
   - intros t n. unfold fA, fbn, fb, fic, ex_form, exd_form. cbn [fst snd bc]. repeat split.
     unfold qvsub. cbn [vsub]. change (qc (0 # 1)) with 0%Qc. repeat (f_equal; try ring).
   - split; [reflexivity|]. split; [reflexivity|].
-    eexists. eexists. split; [vm_compute; reflexivity|]. split; [vm_compute; reflexivity|]. split; [simpl; lia | reflexivity].
+    eexists. eexists. split; vm_compute; reflexivity.
 Qed.
